@@ -856,6 +856,8 @@ class Executor(Exec):
             v = args[0]
             if isinstance(v, SObj) and v._cls:
                 return ClassRef(v._cls)
+            if v is None:
+                return _Builtin("NoneType")
             raise OutOfSubset("type()")
         if name == "hasattr":
             v, attr = args
@@ -925,7 +927,7 @@ class Executor(Exec):
         elif isinstance(v, str) or (is_z3(v) and z3.is_string(v)):
             kinds = {"str", "object"}
         elif v is None:
-            kinds = {"object"}
+            kinds = {"object", "NoneType"}
         elif isinstance(v, (list, AList)):
             kinds = {"list", "object"}
         elif isinstance(v, tuple):
